@@ -562,7 +562,7 @@ func genC19(g *Gen) {
 				g.Run("all interleavings of 2 evaluations", []Ev{{"op": "start", "what": pg.what, "text": pg.text, "procs": 2, "schedule": ints(sc)}})
 			})
 		}
-		for x := 0; x < g.Pick(25, 300); x++ {
+		for x := 0; x < g.Pick(25, 1200); x++ {
 			procs := 2 + r.Intn(2)
 			var sc []int
 			left := make([]int, procs+1)
@@ -581,7 +581,7 @@ func genC19(g *Gen) {
 			g.Run("random interleavings of 2-3 evaluations", []Ev{{"op": "start", "what": pg.what, "text": pg.text, "procs": procs, "schedule": ints(sc)}})
 		}
 		// sequential repetition in every order of three environments visited twice (thorough) / a sample (quick)
-		for x := 0; x < g.Pick(20, 200); x++ {
+		for x := 0; x < g.Pick(20, 800); x++ {
 			var order []int
 			for y := 0; y < 3+r.Intn(8); y++ {
 				order = append(order, 1+r.Intn(3))
